@@ -849,6 +849,9 @@ class World:
             elif mal == "trunc":
                 blob = blob[:-8]
             tpl = T(("CKA_CLASS", "CKO_SECRET_KEY"), ("CKA_KEY_TYPE", kt))
+            if mal in ("asprivate", "asprivate_ec"):
+                # the blob decrypts and passes the integrity check, but its content is not a PKCS#8 key of the requested type
+                tpl = T(("CKA_CLASS", "CKO_PRIVATE_KEY"), ("CKA_KEY_TYPE", "CKK_RSA" if mal == "asprivate" else "CKK_EC"))
             if token is not None:
                 tpl.append(A("CKA_TOKEN", token))
             if private is not None:
@@ -1298,7 +1301,7 @@ def op_strategies(classes=LIGHT_CLASSES, p_bad=0.0, with_gen=True, ntok=2):
         max_size=4)
     s["find"] = st.tuples(st.just("find"), idx, findspec, st.lists(st.sampled_from([1, 1, 2, 3, 5, 64]), min_size=1, max_size=4))
     s["use"] = st.tuples(st.just("use"), idx, idx, st.integers(0, 17), st.sampled_from([False, False, True]))
-    s["unwrap"] = st.tuples(st.just("unwrap"), idx, st.sampled_from(["aes", "generic", "des3"]), tri, tri, st.sampled_from([None, None, None, "flip", "trunc"]), bad_st(p_bad))
+    s["unwrap"] = st.tuples(st.just("unwrap"), idx, st.sampled_from(["aes", "generic", "des3"]), tri, tri, st.sampled_from([None, None, None, "flip", "trunc", "asprivate", "asprivate_ec"]), bad_st(p_bad))
     s["derive"] = st.tuples(st.just("derive"), idx, tri, tri, bad_st(p_bad))
     s["setpin"] = st.tuples(st.just("setpin"), idx, st.integers(0, 3))
     s["inittoken"] = st.tuples(st.just("inittoken"), st.integers(0, ntok - 1))
